@@ -32,12 +32,16 @@ def draw(rng, index):
     nets, kind = travgen.draw_nets(rng, rng.choice(["lxc", "lxc", "serial", "remote"]), max_workers=3)
     # only workers without restrictions: the path has to be executable everywhere
     nets = " ".join(n for n in nets.split() if n in ("net0", "net1", "net2", "net4", "cluster1.net6", "cluster1.net8", "cluster2.net6", "cluster2.net8")) or "net1"
+    if len(vms) >= 2 and rng.random() < 0.35:
+        # three workers sharing the paths of two vms (who runs what depends on the interleaving)
+        nets = rng.choice(["net1 net2 net4", "net2 net1 net4", "cluster1.net6 cluster1.net8 cluster2.net6"])
+        selected = sorted(rng.sample(vms, 2))
     vms_params = {}
     names = [s["name"] for s in spec["setups"]]
     case = {"tool": "update", "suite_spec": spec, "nets": nets, "selected": selected,
             "available_vms": {vm: f"only {d['variants'][0]}\n" for vm, d in spec["vms"].items()},
             "vm_strs": {vm: f"only {spec['vms'][vm]['variants'][0]}\n" for vm in selected},
-            "plan": {"dur_mode": rng.choice(["short", "tied"]), "dur_seed": index, "by_class": {}}, "ignore_requirements": True, "pairs": {}}
+            "plan": {"dur_mode": rng.choice(["short", "tied", "heavy"]), "dur_seed": index, "by_class": {}}, "ignore_requirements": True, "pairs": {}}
     invalid = rng.random() < 0.18
     remove_set = rng.choice([None, None, "leaves", "normal"] + suitegen.leaf_names(spec)[:1])
     case["remove_set"] = remove_set or "leaves"
@@ -192,7 +196,7 @@ def main():
     if args.replay:
         cases = [load_replay(args.replay)["witness"]["case"]]
     else:
-        cases = [c for c in (draw(rng, i) for i in range(90 if args.tier == "quick" else 2200)) if c is not None]
+        cases = [c for c in (draw(rng, i) for i in range(160 if args.tier == "quick" else 2400)) if c is not None]
     for case, result in par.run_cases("checks.c15:run_case", iter(cases), jobs=args.jobs, timeout=900,
                                       budget_s=None if args.replay else (900 if args.tier == "quick" else 3 * 3600)):
         if "inconclusive" in result:
